@@ -2,6 +2,7 @@
 import asyncio
 import functools as ft
 from inspect import isawaitable, iscoroutinefunction
+from types import GeneratorType
 from typing import (
     Any,
     AsyncIterable,
@@ -195,10 +196,18 @@ class AsyncMap:
         )
 
 
-def _isawaitable_fast(value, cache={}, __isawaitable=isawaitable):
+def _isawaitable_fast(
+    value, cache={}, __isawaitable=isawaitable, __generator=GeneratorType
+):
     # This is faster than the default isawaitable which is benefitial for the
     # hot loops required when resolving large objects.
     t = type(value)
+    if t is __generator:
+        # Awaitability of a generator object depends on the instance
+        # (`types.coroutine`), not on its type: a lazy iterable returned for a
+        # list field must not inherit the verdict of a generator based
+        # coroutine seen earlier in the process, or the other way round.
+        return __isawaitable(value)
     try:
         return cache[t]
     except KeyError:
